@@ -26,7 +26,11 @@ TOKEN = re.compile(
 
 PUNCT = ["[", "]", "{", "}", "(", ")", "<", ">", ",", "|", "=", "=>", "~>", "->", "...", "..", ".", ":", "::", "&", "^", "!", "@", "#",
          "$", "%", "~", "*", "_", "'", "\"", "\"\"\"", "\\", "//", "-", "+", "/", "?", ";", "\n", " ", "\t", "\r\n"]
-WORDS = ["x", "y", "f", "'int", "'bin", "'t", "A", "Cons", "Nil", "Ok", "int", "0", "1", "42", "-7", "0x", "0xff", "0xf", "1.5", "1/3",
+# integer literals at and beyond the machine-word boundaries (a positional index `x.N` is parsed into a usize)
+BIGNUM = ["18446744073709551615", "18446744073709551616", "99999999999999999999", "340282366920938463463374607431768211456",
+          "9223372036854775808", "4294967296", "00000000000000000000001"]
+WORDS = ["x.18446744073709551616", "$.99999999999999999999", "^f.18446744073709551616", "x.18446744073709551615", ".4294967296",
+         "x", "y", "f", "'int", "'bin", "'t", "A", "Cons", "Nil", "Ok", "int", "0", "1", "42", "-7", "0x", "0xff", "0xf", "1.5", "1/3",
          "__integer_add__", "__bogus__", "%list", "%nosuch", "math", "'%list", "[]", "{}", "()", "\"s\"", "\"{x}\"", "\"\\n\"", "\"\\q\"",
          "\"\"\"\n  a\n  \"\"\"", "^", "&x", "&.", "$", "$.0", "~.a", "=x", "='int", "=*", "#'int", "#{ 1 }", "@{ 1 }", "!", "! []"]
 NONASCII = ["é", "ü", "ß", "中", "文", "\u00a0", "\u2003", "\u2028", "\u200b", "\ufeff", "😀", "\U0001F468\u200d\U0001F469", "\u0301", "İ", "ǅ",
@@ -119,6 +123,8 @@ class Mut:
             new = self.rng.choice(self.pool)
         elif r < 0.85:
             new = toks[self.rng.choice(sig)]
+        elif r < 0.88:
+            new = self.rng.choice(BIGNUM)
         elif r < 0.93:
             new = self.rng.choice(NONASCII + CONTROL)
         else:
